@@ -505,6 +505,21 @@ func ZZC09Broker() {
 		zzrt.Observe("nsubs", len(got))
 		// what S receives now
 		S2.drain()
+		// retransmissions come first, in the original order, then what had not been sent
+		lastTag, sawNew := byte(0), false
+		for _, p := range S2.wire {
+			if x, ok := p.(*packets.Publish); ok && len(x.Payload) == 2 {
+				if x.Dup {
+					zzrt.Assert(!sawNew, "retransmissions-precede-new-messages-after-restart")
+				} else {
+					sawNew = true
+				}
+				if x.Qos > 0 {
+					zzrt.Assert(x.Payload[1] >= lastTag, "redelivery-keeps-the-original-order") // equal: a publisher retransmission of a QoS 1 message
+					lastTag = x.Payload[1]
+				}
+			}
+		}
 		count := func(m *zz9Msg) (pubs, rels int) {
 			for _, p := range S2.wire {
 				switch x := p.(type) {
@@ -512,6 +527,10 @@ func ZZC09Broker() {
 					if len(x.Payload) == 2 && x.Payload[1] == m.tag {
 						pubs++
 						zzrt.Assert(x.Payload[0] == m.body, "redelivered-payload-is-the-published-one")
+						if m.sid != 0 && !m.sMaybe && !m.cutPub && m.pubAck {
+							// S had received it under m.sid before the crash: same identifier, DUP set
+							zzrt.Assert(x.PacketID == m.sid && x.Dup, "in-flight-message-retransmitted-with-its-identifier-and-dup")
+						}
 					}
 				case *packets.Pubrel:
 					if m.sid != 0 && x.PacketID == m.sid && m.qos == 2 {
